@@ -6,8 +6,8 @@
 // twin (explicit / freshly built table) on identical arguments.
 #include "ops.h"
 
-#define NENV 12
-static const uint64_t ENVN[NENV] = {2, 4, 8, 16, 32, 64, 256, 1024, 4096, 8192, 16384, 65536};
+#define NENV 16
+static const uint64_t ENVN[NENV] = {2, 4, 8, 16, 32, 64, 128, 256, 512, 1024, 2048, 4096, 8192, 16384, 32768, 65536};
 static env_t* ENVS[NENV][2];
 static env_t* env_get(int i, int native) {
   if (!ENVS[i][native]) {
@@ -39,7 +39,7 @@ static void program_case(unsigned prog, int len, int big_ok) {
     int envi, native, op;
     uint64_t seed;
   } ws[WS];
-  const int nenv_use = big_ok ? NENV : 8;
+  const int nenv_use = big_ok ? NENV : 10;
   // one third of the working set hammers the functions with hidden caches (thread-local last-parameter
   // caches, per-dimension static tables) across dimensions and parameters
   static const char* CACHED[] = {"reim_to_znx64_simple", "cplx_to_tnx32_simple", "reim_fft_simple", "reim_ifft_simple", "reim_from_znx64_simple", "cplx_fft_simple", "reim4_from_cplx_simple", "cplx_fftvec_mul_simple", "reim_fftvec_addmul_simple"};
@@ -50,7 +50,7 @@ static void program_case(unsigned prog, int len, int big_ok) {
     ws[i].seed = rng_u64(r) % 5;  // few distinct argument sets per function: parameters alternate on the same cache slot
     const opdef_t* o = &OPS[ws[i].op];
     if (!ws[i].native && (o->flags & (OPF_NTT120 | OPF_AVX | OPF_KERNEL | OPF_SIMPLE))) ws[i].native = 1;
-    if (ENVN[ws[i].envi] > 4096 && (rng_u64(r) & 1)) ws[i].envi = (int)(rng_u64(r) % 8);  // large dimensions are sampled less often
+    if (ENVN[ws[i].envi] > 4096 && (rng_u64(r) & 1)) ws[i].envi = (int)(rng_u64(r) % 10);  // large dimensions are sampled less often
   }
   uint64_t nrep = 0, ntw = 0;
   int last_slot_param[2][3] = {{-1, -1, -1}, {-1, -1, -1}};
